@@ -81,11 +81,11 @@ end SessStore
 structure SessionEnder where
   store : SessStore := {}
   defaultLogoutURI : String := ""
-  hintVerifier : Verifier := {}      -- `IDTokenHintVerifier(ctx)`: issuer of THIS request, the published key set
+  hintVerifier : Verifier := {}      -- `IDTokenHintVerifier(ctx)`: issuer of THIS request, the key set configured for hints
 
 /-- the part of `op.Provider` its `IDTokenHintVerifier(ctx)` method reads -/
 structure HintProvider where
-  idTokenHinKeySet : KeySet := {}                  -- `&OpenIDKeySet{Storage}`: the published keys
+  idTokenHinKeySet : KeySet := {}                  -- the field; what `NewProvider` and the options put there: Model/SessionKeys.lean, `Sess.newProvider`
   idTokenHintVerifierOpts : List String := []      -- `WithSupportedIDTokenHintSigningAlgorithms` ([] = none given)
 
 namespace SessionEnder
